@@ -88,15 +88,35 @@ META2 = {
 }
 
 
+# round 3 (variants E, F = patchA, patchB in /tmp/mut/<id>r3/out)
+META3 = {
+ ("C02","E"): dict(needs="sync function with an Option<Option<T>> argument, or Option<E> where a unit variant of E is spelled `None`", demo_dest="tests/", detected_by=["C02 (keys part: collision on nested options)"]),
+ ("C02","F"): dict(needs="async function with two top-level string arguments one of which contains `|`", demo_dest="cachelito-async/tests/", detected_by=["C02 (keys part: collision on adjacent strings)"]),
+ ("C03","E"): dict(needs="async lru/arc/tlru WITHOUT limit, ttl and max_memory; any second call with the same arguments", demo_dest="cachelito-async/tests/", detected_by=["C03 (oracle once)"]),
+ ("C03","F"): dict(needs="scope = thread; the same arguments from two threads", demo_dest="tests/", detected_by=["C03 / C14 (oracle iso / once per thread)"]),
+ ("C09","E"): dict(needs="sync global Result function with limit AND ttl; an entry expires, its refresh fails, then `limit` other keys succeed", demo_dest="tests/", detected_by=["C09 (oracle limit / err on the Err-refresh lifetime scenarios; corpus functions with limit + ttl + Result)"]),
+ ("C09","F"): dict(needs="async Result function with invalidate_on; a stale entry whose recomputation returns Err", demo_dest="cachelito-async/tests/", detected_by=["C09 (oracle err: an Err is stored / served)"]),
+ ("C10","E"): dict(needs="async function with cache_if whose verdict is not a pure function of key and value; a hit", demo_dest="cachelito-async/tests/", detected_by=["C10 (oracle cif: predicate consulted on a hit)"]),
+ ("C10","F"): dict(needs="sync function with cache_if whose body leaves through `return` or `?`", demo_dest="tests/", detected_by=["C10 (oracle cif on the early-return corpus functions f170-f173)"]),
+ ("C14","E"): dict(needs="sync global cache with a limit; two callers that both miss on one key before either stores", demo_dest="tests/", detected_by=["C14 (sched part, double-store schedules: MISS)", "C18 (queue holds a key twice at quiescence)"]),
+ ("C14","F"): dict(needs="async cache with limit n holding n-1 other entries; two callers that both miss on one key and store at the same time", demo_dest="cachelito-async/tests/", detected_by=["C14 (sched part, double-store schedules: the unrelated key is evicted)"]),
+ ("C15","E"): dict(needs="the same cache's statistics reset twice, the first time with non-zero counters", demo_dest="tests/", detected_by=["C15 (oracle stats after sreset events)"]),
+ ("C15","F"): dict(needs="sync global function with max_memory; any miss", demo_dest="tests/", detected_by=["C15 (oracle stats: a miss booked twice)"]),
+ ("C16","E"): dict(needs="async cache with limit AND max_memory; a stale refresh of a key that is not the newest with a value that fits alone but not beside the others", demo_dest="cachelito-async/tests/", detected_by=["C16 (panic 'attempt to subtract with overflow')"]),
+ ("C16","F"): dict(needs="sync tlru with ttl and a frequency_weight near the end of the float range; a twice-hit entry left unvisited past its ttl, then an overflow", demo_dest="tests/", detected_by=["C16 (panic in partial_cmp().unwrap(): extreme weights with ttl are now in the C16 profile)"]),
+}
+
+
 def main():
     todo = [(pid, v, m, "/tmp/mut/%s/out" % pid, v) for (pid, v), m in META.items()]
     todo += [(pid, v, m, "/tmp/mut/%sr2/out" % pid, {"C": "A", "D": "B"}[v]) for (pid, v), m in META2.items()]
+    todo += [(pid, v, m, "/tmp/mut/%sr3/out" % pid, {"E": "A", "F": "B"}[v]) for (pid, v), m in META3.items()]
     for pid, v, m, src, sv in todo:
         if not os.path.exists(src + "/patch%s.diff" % sv):
             continue
         dst = "/verif/seeded/%s-%s" % (pid, v)
-        if os.path.exists(dst + "/patch.diff") and v in ("A", "B"):
-            continue   # round 1 is saved (some patches were rebased by hand afterwards)
+        if os.path.exists(dst + "/patch.diff") and v in ("A", "B", "C", "D"):
+            continue   # rounds 1 and 2 are saved (some patches were ported by hand afterwards)
         os.makedirs(dst, exist_ok=True)
         shutil.copy(src + "/patch%s.diff" % sv, dst + "/patch.diff")
         shutil.copy(src + "/demo%s.rs" % sv, dst + "/demo.rs")
